@@ -3,8 +3,28 @@ package expr
 import (
 	"fmt"
 	"sort"
+	"strconv"
 	"strings"
 )
+
+// hashSeen keeps track of the types visited while computing a hash.
+type hashSeen struct {
+	// objects holds the hashes of the objects visited so far.
+	objects map[*Object]*string
+	// ranks records the order in which the user types were first visited
+	// (user types are identified by their attribute).
+	ranks map[*AttributeExpr]int
+	// active holds the user types whose hash is being computed.
+	active map[*AttributeExpr]struct{}
+}
+
+func newHashSeen() *hashSeen {
+	return &hashSeen{
+		objects: make(map[*Object]*string),
+		ranks:   make(map[*AttributeExpr]int),
+		active:  make(map[*AttributeExpr]struct{}),
+	}
+}
 
 var (
 	arrayPrefix              = "_a_"
@@ -18,6 +38,7 @@ var (
 	objectPrefix             = "_o_"
 	tagPrefix                = "+"
 	userTypeHashPrefix       = "!"
+	userTypeRecursivePrefix  = "^"
 	userTypePrefix           = "_t_"
 )
 
@@ -30,12 +51,12 @@ var (
 //   - user types have the same attribute names and the attribute types have the same hash if ignoreFields is false
 //   - object attributes have the same "struct:field:xxx" tags if ignoreTags is false
 func Hash(dt DataType, ignoreFields, ignoreNames, ignoreTags bool) string {
-	return *hash(dt, ignoreFields, ignoreNames, ignoreTags, make(map[*Object]*string))
+	return *hash(dt, ignoreFields, ignoreNames, ignoreTags, newHashSeen())
 }
 
-func hash(dt DataType, ignoreFields, ignoreNames, ignoreTags bool, seen map[*Object]*string) *string {
+func hash(dt DataType, ignoreFields, ignoreNames, ignoreTags bool, seen *hashSeen) *string {
 	if seen == nil {
-		seen = make(map[*Object]*string)
+		seen = newHashSeen()
 	}
 	switch dt.Kind() {
 	case BooleanKind, IntKind, Int32Kind, Int64Kind, UIntKind, UInt32Kind, UInt64Kind, Float32Kind, Float64Kind, StringKind, BytesKind, AnyKind:
@@ -56,18 +77,18 @@ func hash(dt DataType, ignoreFields, ignoreNames, ignoreTags bool, seen map[*Obj
 	}
 }
 
-func hashArray(a *Array, ignoreFields, ignoreNames, ignoreTags bool, seen map[*Object]*string) *string {
+func hashArray(a *Array, ignoreFields, ignoreNames, ignoreTags bool, seen *hashSeen) *string {
 	h := arrayPrefix + *hash(a.ElemType.Type, ignoreFields, ignoreNames, ignoreTags, seen)
 	return &h
 }
 
-func hashMap(m *Map, ignoreFields, ignoreNames, ignoreTags bool, seen map[*Object]*string) *string {
+func hashMap(m *Map, ignoreFields, ignoreNames, ignoreTags bool, seen *hashSeen) *string {
 	h := mapPrefix + *hash(m.KeyType.Type, ignoreFields, ignoreNames, ignoreTags, seen) +
 		mapElemPrefix + *hash(m.ElemType.Type, ignoreFields, ignoreNames, ignoreTags, seen)
 	return &h
 }
 
-func hashUnion(u *Union, ignoreFields, ignoreNames, ignoreTags bool, seen map[*Object]*string) *string {
+func hashUnion(u *Union, ignoreFields, ignoreNames, ignoreTags bool, seen *hashSeen) *string {
 	sorted := make([]*NamedAttributeExpr, len(u.Values))
 	copy(sorted, u.Values)
 	sort.Slice(sorted, func(i, j int) bool {
@@ -80,7 +101,7 @@ func hashUnion(u *Union, ignoreFields, ignoreNames, ignoreTags bool, seen map[*O
 	return &h
 }
 
-func hashUserType(ut UserType, ignoreFields, ignoreNames, ignoreTags bool, seen map[*Object]*string) *string {
+func hashUserType(ut UserType, ignoreFields, ignoreNames, ignoreTags bool, seen *hashSeen) *string {
 	h := userTypePrefix
 	if !ignoreNames || ignoreFields {
 		h += ut.Name()
@@ -89,6 +110,19 @@ func hashUserType(ut UserType, ignoreFields, ignoreNames, ignoreTags bool, seen 
 		return &h
 	}
 	att := ut.Attribute()
+	if _, ok := seen.active[att]; ok {
+		// Recursive reference to a user type whose hash is being computed:
+		// refer to it by rank. This terminates the recursion whatever the
+		// types on the cycle are and cannot be mistaken for the hash of a
+		// non recursive type.
+		h += userTypeRecursivePrefix + strconv.Itoa(seen.ranks[att])
+		return &h
+	}
+	if _, ok := seen.ranks[att]; !ok {
+		seen.ranks[att] = len(seen.ranks)
+	}
+	seen.active[att] = struct{}{}
+	defer delete(seen.active, att)
 	if !ignoreTags {
 		h += hashTags(att.Meta)
 	}
@@ -96,13 +130,13 @@ func hashUserType(ut UserType, ignoreFields, ignoreNames, ignoreTags bool, seen 
 	return &h
 }
 
-func hashObject(o *Object, ignoreFields, ignoreNames, ignoreTags bool, seen map[*Object]*string) *string {
-	if s, ok := seen[o]; ok {
+func hashObject(o *Object, ignoreFields, ignoreNames, ignoreTags bool, seen *hashSeen) *string {
+	if s, ok := seen.objects[o]; ok {
 		return s
 	}
 	h := objectPrefix
 	ph := &h
-	seen[o] = ph
+	seen.objects[o] = ph
 	for _, a := range sorted(o) {
 		*ph += attributePrefix + a.Name +
 			attributeTypePrefix + *hash(a.Attribute.Type, ignoreFields, ignoreNames, ignoreTags, seen)
